@@ -15,5 +15,54 @@ pub(crate) fn decode<'de, T>(bytes: &'de [u8]) -> Result<T, Error>
 where
     T: Deserialize<'de>,
 {
+    check_framing(bytes)?;
     serde_bencode::from_bytes(bytes)
+}
+
+/// `serde_bencode` allocates the declared length of a byte string before it reads it, so a
+/// datagram of a dozen bytes can make it allocate gigabytes, panic with a capacity overflow or
+/// abort the process. Walk over the tokens of the first value the same way the decoder does and
+/// reject a string whose declared length exceeds the remaining input (the decoder would fail
+/// with `EndOfStream` at that very token, after the allocation). Anything else that is wrong
+/// with the input is left for the decoder to report.
+fn check_framing(bytes: &[u8]) -> Result<(), Error> {
+    let mut depth = 0usize;
+    let mut pos = 0;
+
+    while let Some(&byte) = bytes.get(pos) {
+        pos += 1;
+
+        match byte {
+            b'd' | b'l' => depth += 1,
+            b'e' => depth = depth.saturating_sub(1),
+            b'i' => match bytes[pos..].iter().position(|b| *b == b'e') {
+                Some(len) => pos += len + 1,
+                None => return Ok(()),
+            },
+            b'0'..=b'9' => {
+                let len = match bytes[pos..].iter().position(|b| *b == b':') {
+                    Some(len) => len,
+                    None => return Ok(()),
+                };
+                let digits = &bytes[pos - 1..pos + len];
+                pos += len + 1;
+
+                match std::str::from_utf8(digits)
+                    .ok()
+                    .and_then(|s| s.parse::<usize>().ok())
+                {
+                    Some(len) if len <= bytes.len() - pos => pos += len,
+                    Some(_) => return Err(Error::EndOfStream),
+                    None => return Ok(()),
+                }
+            }
+            _ => return Ok(()),
+        }
+
+        if depth == 0 {
+            break;
+        }
+    }
+
+    Ok(())
 }
